@@ -45,14 +45,9 @@ NOT_APPLICABLE = {
     'C19': 'claim about the support of a random generator built from closures over &mut dyn Rng, format! and String building; string-language inclusion is outside Verus/Kani reach',
     'C20': 'round-trip parse(lex(rebuild(t))) needs verified specs of the alpha lexer and parser (outside the dialect) and string reasoning over 1000 lines of printing',
 }
-# properties planned but not yet claimed are listed here until their check exists
-PENDING = {
-
-    'C16': 'check under construction (U-PARSE layout)',
-}
-for _p, _r in PENDING.items():
-    if _p not in PROPS:
-        NOT_APPLICABLE[_p] = _r
+NOT_APPLICABLE['C16'] = ('tree fidelity is a relational specification of the whole grammar against the flat relative-context node layout (nodes[-1], nodes[-2], ...) and the first-generation AST, and '
+                         'completeness (every valid module accepted) needs a declarative grammar of the language; the observation point (parse_tree_xml.rs: print_xml/as_xml) is format!/Box<dyn Iterator>/&str slicing outside the Verus dialect '
+                         'and too large for Kani; what contracts can reach of the parser (totality, node budget, debug_assert protocol, zone bracket invariant) is claimed under C15 and C17; the MALFORMED-free dump is sampled only by the thorough-tier differential sweep of C17, which decides nothing')
 
 LEVELS = {'C07': {'text': 'PARTIAL: proof (Verus, unbounded over all value types of any depth and all expression trees). value_type.rs: equals == identity up to the char8~u8 alias, can_coerce_into / can_coerce_address_into == '
                  'exactly the documented array/struct-to-view/slice coercions, autoderef never changes the underlying element type. resolver.rs operator rules: each unary/binary/comparison operator is accepted exactly '
